@@ -99,15 +99,16 @@ _UNI = [(0xA0, 0xFF), (0x100, 0x17F), (0x370, 0x3FF), (0x400, 0x4FF), (0x590, 0x
         (0x300, 0x36F), (0x2000, 0x206F), (0x3000, 0x303F), (0x4E00, 0x9FFF), (0xAC00, 0xD7A3),
         (0xFE00, 0xFE0F), (0xFF00, 0xFFEF), (0x1F300, 0x1F64F), (0x1F900, 0x1F9FF), (0x20000, 0x2A6DF),
         (0xE000, 0xE0FF), (0x1, 0x1F), (0x7F, 0x9F), (0xFFF0, 0xFFFD), (0x10FFF0, 0x10FFFF)]
-_ASCII_SPECIAL = list("'\"\\$` \n*") + list(";|&<>()#~{}!?[]=:%^,+-./@_") + ["\t", "\r"]
+_ASCII_SPECIAL = list("'\"\\$` \n*") + list(";|&<>()#~{}!?[]=:%^,+-.@_") + ["\t", "\r"]
 _PLAIN = list("a0123456789")
 
 
 def random_unicode_strings(rng, n):
     """Characters outside the shell's special sets are the class whose representative
     in the exhaustive alphabet is `a`; here they are arbitrary Unicode scalar values
-    (no NUL, no surrogates).  ASCII letters other than `a` are left out on purpose: a
-    string that escapes its quotes must not be able to spell a command."""
+    (no NUL, no surrogates).  ASCII letters other than `a` and the slash are left out on
+    purpose: a string that escapes its quotes (a defect the check exists to find) must not
+    be able to spell a command or a path outside the scratch directory."""
     out = []
     for _ in range(n):
         ln = rng.randint(1, 40)
@@ -152,9 +153,11 @@ def _header():
             "alias exec=__execdump\n")
 
 
-def shell_script(entries, shell):
+def shell_script(entries, shell, isolated=False):
     """entries: [(id, conv, text)].  Every text is sourced in its own subshell from a
-    here-document with a quoted delimiter (taken literally by the shell)."""
+    here-document with a quoted delimiter (taken literally by the shell).  isolated:
+    every subshell writes through its own pipe into /bin/cat, so that the next text is
+    only evaluated when nothing the previous one started can write any more."""
     parts = [_header()]
     for n, (iid, conv, text) in enumerate(entries):
         if conv == "exec" and shell == "dash":
@@ -169,20 +172,32 @@ def shell_script(entries, shell):
             raise C.ToolError("no here-document delimiter available for %r" % text[:80])
         delim = "%sC08_EOF_%d" % (first, n)
         tail = {"env": "__vars", "flags": "__args \"$@\"", "raw": "__args \"$@\"", "exec": ":"}[conv]
-        parts.append("printf 'B\\0%%s\\0' %d\n( . /dev/stdin <<'%s'\n%s\n%s\n%s )\nprintf 'E\\0%%s\\0' \"$?\"\n"
-                     % (iid, delim, text, delim, tail))
+        sub = "( . /dev/stdin <<'%s'\n%s\n%s\n%s )" % (delim, text, delim, tail)
+        if isolated:
+            parts.append("printf '\\0B\\0%%s\\0' %d\n( %s\nprintf '\\0E\\0%%s\\0' \"$?\" ) | /bin/cat\n" % (iid, sub))
+        else:
+            parts.append("printf '\\0B\\0%%s\\0' %d\n%s\nprintf '\\0E\\0%%s\\0' \"$?\"\n" % (iid, sub))
     return "".join(parts)
 
 
 def parse_shell_output(out):
+    """-> ({id: observation}, anomaly).  Framing: NUL B NUL id NUL [W NUL n NUL arg NUL ...]
+    [V NUL (flag NUL value NUL)*] NUL E NUL status NUL.  Anything else is junk and is
+    attributed to the record it appears in (or after)."""
     toks = out.split(b"\0")
     res = {}
     i = 0
     n = len(toks) - 1          # the last token is what follows the final NUL
     nv = 2 * len(VARPOOL)
     dec = lambda b: b.decode("utf-8", "surrogateescape")
+    last = None
+    anomaly = False
     while i < n:
-        if toks[i] != b"B":
+        if toks[i] != b"B" or i + 1 >= n or not toks[i + 1].isdigit():
+            if toks[i] != b"":
+                anomaly = True
+                if last is not None:
+                    last["junk"] = True
             i += 1
             continue
         iid = int(toks[i + 1])
@@ -190,24 +205,50 @@ def parse_shell_output(out):
         rec = {"st": None}
         while i < n:
             t = toks[i]
-            if t == b"W" and i + 1 < n and toks[i + 1].isdigit():
+            if t == b"W" and "args" not in rec and i + 1 < n and toks[i + 1].isdigit():
                 k = int(toks[i + 1])
                 rec["args"] = [dec(x) for x in toks[i + 2:i + 2 + k]]
                 i += 2 + k
-            elif t == b"V":
+            elif t == b"V" and "vars" not in rec:
                 vals = toks[i + 1:i + 1 + nv]
                 rec["vars"] = {VARPOOL[j]: dec(vals[2 * j + 1]) for j in range(len(VARPOOL))
                                if 2 * j + 1 < len(vals) and vals[2 * j] == b"s"}
                 i += 1 + nv
-            elif t == b"E":
-                rec["st"] = int(toks[i + 1]) if toks[i + 1].isdigit() else -1
+            elif t == b"E" and i + 1 < n and toks[i + 1].isdigit():
+                rec["st"] = int(toks[i + 1])
                 i += 2
                 break
+            elif t == b"":
+                i += 1
             else:
                 rec["junk"] = True
+                anomaly = True
                 i += 1
+        if rec["st"] is None:
+            anomaly = True
+        if iid in res:
+            anomaly = True
+            rec["junk"] = True
         res[iid] = rec
-    return res
+        last = rec
+    return res, anomaly
+
+
+def _run_shell(scr, shell, entries, isolated):
+    path = os.path.join(scr, "run-%d-%d-%s.sh" % (os.getpid(), entries[0][0], shell))
+    with open(path, "w", encoding="utf-8", errors="surrogateescape") as f:
+        f.write(shell_script(entries, shell, isolated))
+    exe = "/bin/sh" if shell == "dash" else shutil.which("bash", path="/usr/bin:/bin:/usr/local/bin")
+    env = {"PATH": os.path.join(scr, "bin"), "HOME": os.path.join(scr, "cwd"), "a": "EXPANDED",
+           "LC_ALL": "C.UTF-8"}
+    try:
+        p = subprocess.run([exe, path], cwd=os.path.join(scr, "cwd"), env=env, stdin=subprocess.DEVNULL,
+                           stdout=subprocess.PIPE, stderr=subprocess.DEVNULL, timeout=900)
+    except subprocess.TimeoutExpired:
+        raise C.ToolError("%s did not finish a batch of %d texts" % (shell, len(entries)))
+    finally:
+        os.unlink(path)
+    return parse_shell_output(p.stdout)
 
 
 def work_shell(_h, chunk):
@@ -217,19 +258,10 @@ def work_shell(_h, chunk):
     for scr, shell, iid, conv, text in chunk:
         by.setdefault((scr, shell), []).append((iid, conv, text))
     for (scr, shell), entries in by.items():
-        path = os.path.join(scr, "run-%d-%d-%s.sh" % (os.getpid(), entries[0][0], shell))
-        with open(path, "w", encoding="utf-8", errors="surrogateescape") as f:
-            f.write(shell_script(entries, shell))
-        exe = "/bin/sh" if shell == "dash" else shutil.which("bash", path="/usr/bin:/bin:/usr/local/bin")
-        env = {"PATH": os.path.join(scr, "bin"), "HOME": os.path.join(scr, "cwd"), "a": "EXPANDED",
-               "LC_ALL": "C.UTF-8"}
-        try:
-            p = subprocess.run([exe, path], cwd=os.path.join(scr, "cwd"), env=env, stdin=subprocess.DEVNULL,
-                               stdout=subprocess.PIPE, stderr=subprocess.DEVNULL, timeout=600)
-        except subprocess.TimeoutExpired:
-            raise C.ToolError("%s did not finish a batch of %d texts" % (shell, len(entries)))
-        obs = parse_shell_output(p.stdout)
-        os.unlink(path)
+        obs, anomaly = _run_shell(scr, shell, entries, False)
+        if anomaly or len(obs) != len(entries):
+            # something a text started wrote outside its own record: evaluate one at a time
+            obs, _ = _run_shell(scr, shell, entries, True)
         for iid, _, _ in entries:
             out.append((iid, shell, obs.get(iid, {"st": None, "lost": True})))
     return out
@@ -648,6 +680,7 @@ def main(tier, replay=None):
     for k, v in rep.matched.items():
         hist["known " + k] = len(v)
     C.log("[c08] %d texts agree; disagreements by key: %s" % (agree, hist or "none"))
+    rep.violations.sort(key=lambda kv: len(json.dumps(kv[1])))      # smallest witnesses first
     code = rep.finish()
     nt = set()
     for it in items:
@@ -695,7 +728,7 @@ def main(tier, replay=None):
                                   "ShellTrace on the real texts (thorough tier only)":
                                       {a: tcov.get(a, 0) for a in MACHINE_ACTIONS} if tcov else "not collected"},
         "checker_cmd": " ; ".join(cmds),
-        "trusted_base": ["TLC 2.19 (tla2tools 1.8.0)", "/bin/sh = dash 0.5.12, bash 5.2 as the deciding environment",
+        "trusted_base": ["TLC (tla2tools 1.8.0)", "/bin/sh = dash 0.5.12, bash 5.2 as the deciding environment",
                          "here-documents with a quoted delimiter deliver a text to the shell unaltered",
                          "vp/c08.py batching, NUL-framed dump parsing and projection of observations",
                          "harness op `convert` (Val built from JSON)"],
@@ -709,7 +742,7 @@ def main(tier, replay=None):
         "the assigned variables (export of the assignments is not part of C08)",
         "flags output is evaluated as `set -- <text>`; shells run with an empty PATH in a scratch directory holding "
         "decoy files (zz1, ab, 'a b', aa) and a=EXPANDED in the environment so that an expansion would be visible",
-        "strings contain no NUL; the seeded strings contain no ASCII letter other than `a`",
+        "strings contain no NUL; the seeded strings contain no ASCII letter other than `a` and no `/`",
         "order of env assignments is established by the shell machine reading the real text; the real shells "
         "confirm the final value of every variable",
     ])
